@@ -153,11 +153,11 @@ class RefTemporal(H.RefBase):
     def is_uniform(self):
         return len(set(self.get_sizes())) <= 1
 
-    def isolated_nodes(self):
-        return [n for n in self.nodes if not self.get_neighbors(n)]
+    def isolated_nodes(self, size=None, order=None):
+        return [n for n in self.nodes if not self.get_neighbors(n, order, size)]
 
-    def is_isolated(self, n):
-        return not self.get_neighbors(n)
+    def is_isolated(self, n, size=None, order=None):
+        return not self.get_neighbors(n, order, size)
 
     def get_node_metadata(self, n):
         return self.nodes[n]
@@ -211,6 +211,10 @@ def observe(h, U, probes, real):
                         crec(e) for e in h.get_edges(time_window=(a, b), size=k))
                     win[(a, b, "order<=", k - 1)] = Counter(
                         crec(e) for e in h.get_edges(time_window=(a, b), order=k - 1, up_to=True))
+                    win[(a, b, "size<=", k)] = Counter(
+                        crec(e) for e in h.get_edges(time_window=(a, b), size=k, up_to=True))
+                    win[(a, b, "order", k - 1)] = Counter(
+                        crec(e) for e in h.get_edges(time_window=(a, b), order=k - 1))
     o["get_edges(time_window)"] = win
     o["window_meta"] = {crec(k): dc(v) for k, v in
                         h.get_edges(time_window=(1, 5), metadata=True).items()}
@@ -242,7 +246,9 @@ def observe(h, U, probes, real):
                 nei[n][tag] = _setof(h.get_neighbors(n, **kw))
                 deg[n][tag] = h.degree(n, **kw)
             mdeg[n][("size", k)] = m_degree(h, n, size=k)
-        iso[n] = h.is_isolated(n)
+            mdeg[n][("order", k - 1)] = m_degree(h, n, order=k - 1)
+        iso[n] = {None: h.is_isolated(n), ("size", 2): h.is_isolated(n, size=2),
+                  ("order", 2): h.is_isolated(n, order=2)}
         nmeta[n] = dc(h.get_node_metadata(n))
     o["get_incident_edges"], o["get_neighbors"], o["degree"] = inc, nei, deg
     o["measures.degree"], o["is_isolated"], o["node_meta"] = mdeg, iso, nmeta
@@ -254,6 +260,11 @@ def observe(h, U, probes, real):
         o["degree_sequence"][("size", k)] = dict(h.degree_sequence(size=k))
         o["degree_sequence"][("order", k - 1)] = dict(h.degree_sequence(order=k - 1))
         o["degree_distribution"][("size", k)] = dict(h.degree_distribution(size=k))
+        o["degree_distribution"][("order", k - 1)] = dict(h.degree_distribution(order=k - 1))
+        o[("measures.degree_sequence", "size", k)] = dict(m_dseq(h, size=k))
+        o[("measures.degree_sequence", "order", k - 1)] = dict(m_dseq(h, order=k - 1))
+        o[("isolated_nodes", "size", k)] = Counter(h.isolated_nodes(size=k))
+        o[("isolated_nodes", "order", k - 1)] = Counter(h.isolated_nodes(order=k - 1))
     o["isolated_nodes"] = Counter(h.isolated_nodes())
     o["get_sizes"] = Counter(h.get_sizes())
     o["get_orders"] = Counter(h.get_orders())
@@ -325,8 +336,12 @@ class TemporalAdapter(H.Adapter):
         if node_meta is not None:
             kw["node_metadata"] = node_meta
         if recs:
-            kw["edge_list"] = [tuple(r["e"]) for r in recs]
-            kw["time_list"] = [r["t"] for r in recs]
+            if len(recs) % 2:
+                # the documented alternative: (time, edge) pairs and no time_list
+                kw["edge_list"] = [(r["t"], tuple(r["e"])) for r in recs]
+            else:
+                kw["edge_list"] = [tuple(r["e"]) for r in recs]
+                kw["time_list"] = [r["t"] for r in recs]
             if ws is not None:
                 kw["weights"] = ws
             if metas is not None:
@@ -368,7 +383,34 @@ class TemporalAdapter(H.Adapter):
         return observe(h, U, probes, real)
 
     # ---- derived objects: snapshots and aggregation
+    def rejection_must_raise(self, c):
+        """'non-integer or negative times are rejected': an insertion with such a time raises."""
+        if c["op"] == "add_edge":
+            return not valid_time(c["e"]["t"])
+        if c["op"] == "add_edges" and c["es"]:
+            return not valid_time(c["es"][0]["t"])
+        return False
+
+    def _constructor_rejects_bad_times(self, U, model, ctx):
+        from hypergraphx import TemporalHypergraph
+        nodes = tuple(U[:2])
+        for j, bad in enumerate(BAD_TIMES):
+            kw = ({"edge_list": [nodes], "time_list": [bad]} if j % 2 else
+                  {"edge_list": [(bad, nodes)]})
+            if model.weighted:
+                kw.update(weighted=True, weights=[2])
+            try:
+                TemporalHypergraph(**kw)
+            except (TypeError, ValueError):
+                continue
+            raise Violation("TemporalHypergraph(%s) accepted the time %r"
+                            % (", ".join("%s=%r" % kv for kv in kw.items()), bad),
+                            key="constructor-accepts-bad-time")
+        ctx.label("constructor_bad_times_checked")
+
     def extra_checks(self, h, model, U, step, ctx, final):
+        if step == -1:
+            self._constructor_rejects_bad_times(U, model, ctx)
         if not final and step % 6 != 5:
             return False
         recs = {k: v[0] for k, v in model.edges.items()}
@@ -377,8 +419,10 @@ class TemporalAdapter(H.Adapter):
         wins = [None]
         if times:
             wins += [(times[0], times[-1]), (times[0] + 1, times[-1] + 1), (3, 3), (4, 2)]
-        for w in wins:
-            snaps = h.subhypergraph() if w is None else h.subhypergraph(time_window=w)
+        for j, w in enumerate(wins):
+            # the same claims hold with add_all_nodes=True (the node sets are not compared)
+            flag = {"add_all_nodes": True} if (step + j) % 2 else {}
+            snaps = h.subhypergraph(**flag) if w is None else h.subhypergraph(time_window=w, **flag)
             want_times = [t for t in times if w is None or w[0] <= t < w[1]]
             require(sorted(snaps.keys()) == want_times,
                     lambda: "subhypergraph(%r) has times %r, records exist at %r"
